@@ -170,6 +170,11 @@ def gen_case(rng):
             span = rng.choice([0, 900, 3700, 9000])
         t0 = day + datetime.timedelta(hours=rng.choice([0, 0, 9]))
         t1 = t0 + DAY * span * sign
+        if rng.random() < 0.25:
+            t1 = t1 + datetime.timedelta(hours=rng.choice([-9, 5, 13])) * (1 if span else sign)          # endpoints that are not a whole number of days apart
+        if rng.random() < 0.12:
+            us_ = datetime.timedelta(microseconds=rng.choice([5, 250000]))                                # a start stamped to the microsecond
+            t0, t1 = t0 + us_, t1 + us_
         bump = n if kind == 'int' else '%dd' % n
         big = abs(n) > 1
     elif kind == 'td':
@@ -192,6 +197,9 @@ def gen_case(rng):
         t1 = t0 + DAY * (unit_days * abs(n) * rng.choice([0, 1, 2, 5, 9]) + rng.choice([0, 1, 3])) * sign
         if u in 'mqy':
             t1 = datetime.datetime(t1.year, t1.month, min(t1.day, 28))
+        if rng.random() < 0.1 and u in 'dw':          # (month-based units are stated for dates at midnight)
+            us_ = datetime.timedelta(microseconds=rng.choice([5, 250000]))
+            t0, t1 = t0 + us_, t1 + us_
         bump = '%d%s' % (n, u)
         big = abs(n) > 1
     elif kind == 'single_intra':
